@@ -636,3 +636,7 @@ def _judge(res, run_, exp, r, ctx, cbs, w, async_close=False):
 def sample_view(sc, r):
     return {"first": sc["first"], "second": sc.get("second"), "callbacks": sorted(sc.get("callbacks") or {}), "tls": sc.get("tls"), "reconnect": sc.get("reconnect"),
             "closer": sc.get("closer"), "policy": sc.get("policy"), "raiser": sc.get("raiser"), "sender": sc.get("sender")}
+
+
+# round 7 summary for the evidence file
+RULE = RULE + "  Round 7: 'close_in_on_close' - the application's on_close itself calls close() (every ending mode once, 10 % of the seeded scenarios): the run returns, on_close is not called again."
